@@ -68,6 +68,16 @@ def run(tier):
             lang = 'ja' if 'ja' in seq or rng.random() < 0.3 else 'en'
             rf.set_lang(lang)
             b = trees.make_batch(rng, lang, awkward=0.3, licensed_p=0.8, sparse=rng.random() < 0.5)
+            if rng.random() < 0.3:
+                # tokens are free-form: a caller's token may carry attributes under names a layout uses for its own bookkeeping
+                # (rendering need not carry them, but must still neither depend on history nor change the caller's objects)
+                for sent in b:
+                    n = len(trees.leaves_of(sent[0]))
+                    extra = {i: {k: rng.choice(['NP', 'x', '0', 's9_9']) for k in rng.sample(['cat', 'id', 'start', 'span', 'surf', 'base', 'terminal'], rng.randint(1, 2))}
+                             for i in range(n) if rng.random() < 0.5}
+                    for t in sent:
+                        for i, x in enumerate(trees.leaves_of(t)):
+                            x['tok'].update(extra.get(i, {}))
             fresh = {}
             for f in set(seq):
                 fresh[f] = render(P, trees.real_batch(b, random.Random(7)), f, captured)
